@@ -1349,6 +1349,22 @@ def m_set_discard(ip, s, x):
 SET_METHODS = {'add': m_set_add, 'update': m_set_update, 'discard': m_set_discard}
 
 
+def codec_tag(enc, errors='strict'):
+    """canonical name of a codec + error mode ('utf-8' / 'strict' give ''): encode and decode are an inverse pair only under
+    the SAME tag (utf-8 written, utf-8-sig read is not a round trip)"""
+    import codecs
+    if not isinstance(enc, str) or not isinstance(errors, str):
+        raise Unsupported('codec name that is not a constant string')
+    try:
+        name = codecs.lookup(enc).name
+    except LookupError:
+        raise Unsupported('unknown codec %r' % (enc,))
+    tag = '' if name == 'utf-8' else '_' + name.replace('-', '_')
+    if errors != 'strict':
+        tag += '_' + errors
+    return tag
+
+
 def m_bytes_decode(ip, b, enc='utf-8', errors='strict'):
     hk = ip.hooks.get('bytes.decode')
     if hk is not None:
@@ -1359,12 +1375,14 @@ def m_bytes_decode(ip, b, enc='utf-8', errors='strict'):
         except UnicodeDecodeError:
             ip.ctx.raise_exc('UnicodeDecodeError')
     used(ip, 'bytes.decode: uninterpreted injective function utf8dec (may raise UnicodeDecodeError)')
+    tag = codec_tag(enc, errors)
     if ip.ctx.choose(2) == 1:
         ip.ctx.raise_exc('UnicodeDecodeError')
-    f = z3.Function('utf8dec', BytesSort, StrSort)
-    g = z3.Function('utf8enc', StrSort, BytesSort)
+    f = z3.Function('utf8dec' + tag, BytesSort, StrSort)
+    g = z3.Function('utf8enc' + tag, StrSort, BytesSort)
     r = f(b.t)
-    ip.ctx.assume(g(r) == b.t)
+    if tag == '':
+        ip.ctx.assume(g(r) == b.t)
     return Sym(r, 'str')
 
 
@@ -1377,10 +1395,12 @@ def m_str_encode(ip, s, enc='utf-8', errors='strict'):
     if isinstance(s, OpaqueStr):
         raise Unsupported('encode of an opaque string')
     used(ip, 'str.encode: uninterpreted injective function utf8enc, utf8dec(utf8enc(s)) = s')
-    f = z3.Function('utf8dec', BytesSort, StrSort)
-    g = z3.Function('utf8enc', StrSort, BytesSort)
+    tag = codec_tag(enc, errors)
+    f = z3.Function('utf8dec' + tag, BytesSort, StrSort)
+    g = z3.Function('utf8enc' + tag, StrSort, BytesSort)
     r = g(s.t)
-    ip.ctx.assume(f(r) == s.t)
+    if errors == 'strict':
+        ip.ctx.assume(f(r) == s.t)
     return Sym(r, 'bytes')
 
 
